@@ -5,12 +5,20 @@ go 1.17
 require github.com/kubeshark/base v0.0.0
 
 require (
+	github.com/alecthomas/participle/v2 v2.0.0-alpha7 // indirect
+	github.com/clbanning/mxj/v2 v2.5.5 // indirect
+	github.com/dlclark/regexp2 v1.4.0 // indirect
+	github.com/fatih/camelcase v1.0.0 // indirect
 	github.com/google/martian v2.1.0+incompatible // indirect
+	github.com/klauspost/compress v1.15.9 // indirect
 	github.com/kubeshark/gopacket v1.1.20 // indirect
 	github.com/mattn/go-colorable v0.1.13 // indirect
 	github.com/mattn/go-isatty v0.0.16 // indirect
 	github.com/mertyildiran/gqlparser/v2 v2.4.6 // indirect
+	github.com/ohler55/ojg v1.14.5 // indirect
+	github.com/pierrec/lz4/v4 v4.1.15 // indirect
 	github.com/rs/zerolog v1.28.0 // indirect
+	github.com/segmentio/kafka-go v0.4.38 // indirect
 	golang.org/x/net v0.2.0 // indirect
 	golang.org/x/sys v0.2.0 // indirect
 	golang.org/x/text v0.4.0 // indirect
